@@ -199,6 +199,17 @@ for _s, _k in KINDS:
           "for all well-formed boards (side %s, one king each, consistent mark, normalised rights) x all pseudo-legal moves of kind %s: is_legal with NilPrechecker == is_legal with DefaultPrechecker == validate().is_ok() == (mover's king not attacked in ref_apply(position, move))" % (_c, _k),
           assumes=TABLES + ["C15/between/all-pairs", "C15/pawns/advances", "C16/check-queries", "C06/semilegal/%s/%s" % (_k, _c)], timeout=2400, mem_gb=16)
 
+# ---------------------------------------------------------------------------------------------
+# Layer V: move chains (C13, C14) - extracted verbatim, verified by Verus
+# ---------------------------------------------------------------------------------------------
+STEP = ["C03/make/%s/%s" % (_k, _c) for _s, _k in KINDS + [("null", "Null")] for _c in ("w", "b")]
+V("C13/chain/verus", ["C13", "C14", "C04", "C02"], "chain.vspec",
+  ["BaseMoveChain::new", "BaseMoveChain::startpos", "BaseMoveChain::last", "BaseMoveChain::len", "BaseMoveChain::is_empty", "BaseMoveChain::get", "BaseMoveChain::outcome",
+   "BaseMoveChain::is_finished", "BaseMoveChain::clear_outcome", "BaseMoveChain::set_outcome", "BaseMoveChain::reset_outcome", "BaseMoveChain::calc_outcome",
+   "BaseMoveChain::set_auto_outcome", "BaseMoveChain::do_finish_push", "BaseMoveChain::push_unchecked", "BaseMoveChain::push", "BaseMoveChain::pop", "Outcome::is_force", "Outcome::passes"],
+  "for chains of ANY length and any Repeat / Make implementation satisfying their contracts: push on Ok appends exactly the denoted legal move (board == apply, undo recorded, table +1), on Err changes nothing; pop removes exactly the last entry, restores the previous board, clears the outcome, table -1; lemmas: the chain invariant (board == replay(start, moves), undo data and legality of every entry, table == multiset of all positions so far) is established by new and preserved by push/pop/outcome operations; calc_outcome satisfies the C14 precedence relation; set_auto_outcome stores exactly when the filter passes",
+  assumes=STEP + ["C07/calc-outcome", "C11/try-from/normalised", "C20/types/outcome-filter"])
+
 
 def by_id():
     return {o["id"]: o for o in OBS}
